@@ -82,7 +82,7 @@ def describe(row):
 
 def classify(ctx, pid, rows, bad, tag):
     """Turns monitor verdicts into the check's verdict.  Returns (known_counts, transient, violations)."""
-    known, transient, violations = {}, [], []
+    known, transient, violations, unretried = {}, [], [], []
     for line, v in sorted(bad.items()):
         row = rows[line - 1]
         if v == "stall":
@@ -97,7 +97,10 @@ def classify(ctx, pid, rows, bad, tag):
                 else:
                     transient.append(dict(id=row["id"], what=what, case=describe(row)))
                 continue
-            violations.append((line, row, "a sink never completed (time-out twice, the second time run alone)"))
+            if row.get("attempt") == 1:
+                unretried.append((line, row, "a sink never completed (first attempt; retry budget exhausted)"))
+            else:
+                violations.append((line, row, "a sink never completed (time-out twice, the second time run alone with 30 s)"))
             continue
         ids = v.split("+")
         if v != "mismatch" and all(ctx.is_known(i) for i in ids):
@@ -106,6 +109,13 @@ def classify(ctx, pid, rows, bad, tag):
                 ctx.report_known(i, "sink output explained only by defect branch %s of Sem: %s" % (i, describe(row)))
             continue
         violations.append((line, row, "sink output is not the list semantics (monitor verdict %s)" % v))
+    if unretried:
+        # more first-attempt time-outs than the driver's retry budget covers: deterministic only if a retried one stalled again
+        if any("time-out twice" in why for (_, _, why) in violations):
+            violations += unretried
+        else:
+            raise vlib.Infra("%d first-attempt time-outs beyond the retry budget and no confirmed stall (overloaded machine?): %s"
+                             % (len(unretried), describe(unretried[0][1])))
     return known, transient, violations
 
 
@@ -122,7 +132,7 @@ def spin_witness(ctx, exe, pid):
     """Regression witness of the fixed finding StoppedStageSpinsWorker: 40 trivial pipelines, one after the other,
     on ONE actor system must all complete and leave the system idle."""
     rfile = ctx.tmp("spin-results.ndjson")
-    p = ctx.run([exe, "spin", rfile, "40", "3000"], timeout=600)
+    p = ctx.run([exe, "spin", rfile, "40", "5000"], timeout=900)
     st = json.loads(p.stdout.strip().splitlines()[-1])
     ctx.log("spin witness: %s" % st)
     return rfile, st
@@ -256,13 +266,17 @@ def run(ctx, pid):
                                  "and the idle system burns %.1f cores (stopped stage actors keep dispatcher workers spinning: "
                                  "BoundedMailbox disposed with messages left)" % (len(spin_bad), spin_stats["idle_cpu_cores"]))
         if spin_bad:
-            raise vlib.Infra("spin witness timed out without the idle-CPU signature: %s" % spin_stats)
+            # pipelines that do not complete, but no spinning: not the fixed finding; the main run decides
+            # (a stall is a violation only when confirmed on a second attempt run alone)
+            ctx.log("spin witness: %d of 40 pipelines timed out without the idle-CPU signature: %s" % (len(spin_bad), spin_stats))
 
     # ---- real executions + monitor
     rfile, stats = run_sem(ctx, exe, cases, "sem")
     ctx.log("executed %d cases on the real stream package: %s (%.0fs)" % (len(cases), stats, time.time() - t0))
     rows, bad = judge(ctx, rfile, "Trace_Sem")
     known, transient, violations = classify(ctx, pid, rows, bad, "sem")
+    if stats.get("skipped") and not violations:
+        raise vlib.Infra("driver stopped after mass time-outs (%s) but no stall was confirmed on a second attempt" % stats)
 
     final = [r for r in rows if r.get("superseded") != 1]
     nontrivial = len({json.dumps([r["j"], r["srcs"], r["post"], r["branches"]], sort_keys=True) for r in final
